@@ -5,9 +5,9 @@ import BadgerModel.Key
 machine.
 
 * `newSubscriber` takes the next id, registers the subscriber and *then* adds its matches to the
-  trie one by one; a match whose ignore string does not parse makes it return an error — the
-  subscriber stays registered (and the matches added so far stay in the trie), but `DB.Subscribe`
-  returns the error, so there is no callback loop for it (`ok = false`).
+  trie one by one; a match whose ignore string does not parse makes it return an error and the
+  registration is undone (since the fix of finding F24; before, the subscriber stayed registered
+  without a `Subscribe` loop and `DB.Close` waited for it forever). `ok` is therefore always true.
 * `publishUpdates(reqs)`: requests in the order of `writeRequests`, entries in request order; for
   every entry `ids = trie.Get(y.ParseKey(e.Key))` (after the fix of finding F10) and one `pb.KV`
   (`Key = ParseKey`, `Value`, `Meta = [UserMeta]`, `ExpiresAt`, `Version = ParseTs`) is appended to
@@ -76,12 +76,22 @@ def delMatchesFor (t : Trie) (id : Nat) : List (Bytes × Bytes) → Trie
   | [] => t
   | (p, ig) :: rest => delMatchesFor ((t.deleteMatch p ig id).getD t) id rest
 
-/-- `newSubscriber`: the new state and the id, or `none` for an error. -/
+/-- The matches before the first one whose ignore string does not parse. -/
+def okPrefix : List (Bytes × Bytes) → List (Bytes × Bytes)
+  | [] => []
+  | (p, ig) :: rest => if (parseIgnoreBytes ig).isSome then (p, ig) :: okPrefix rest else []
+
+/-- `newSubscriber`: the new state and the id, or `none` for an error. On the error path (a match
+    whose ignore string does not parse) the registration is undone — the matches added so far are
+    deleted again and the subscriber is removed (fix of finding F24); the id stays consumed. -/
 def Publisher.subscribe (p : Publisher) (ms : List (Bytes × Bytes)) : Publisher × Option Nat :=
   let r := addMatchesFor p.trie p.nextID ms
-  ({ p with trie := r.1, nextID := p.nextID + 1,
-            subs := p.subs ++ [{ id := p.nextID, matchList := ms, ok := r.2, queue := [] }] },
-   if r.2 then some p.nextID else none)
+  if r.2 then
+    ({ p with trie := r.1, nextID := p.nextID + 1,
+              subs := p.subs ++ [{ id := p.nextID, matchList := ms, ok := true, queue := [] }] },
+     some p.nextID)
+  else
+    ({ p with trie := delMatchesFor r.1 p.nextID (okPrefix ms), nextID := p.nextID + 1 }, none)
 
 /-- `batchedUpdates[id]` after the double loop of `publishUpdates`: the KVs of the entries whose
     id set contains `id`, in request and entry order. -/
